@@ -24,6 +24,7 @@ RULE = ("Model level: Hypothesis draws T=1..3 distinct blob templates, a rotatio
         "rotation features the searched rotation (incl. a 3 x 125 = 375-candidate search whose flat indices exceed 8 bits). Grid level (enumerated): normalize_rotations of (max, step) ranges "
         "against the documented grid (size, identity, z-major order, external single-axis rotations). "
         "Non-trivial = T > 1 and K > 1 with k != identity.")
+RULE += (" " + "Also: Model.fit with several templates, binary masks given as bool / uint8 / float32 arrays, one-element template lists through the multi-template loader routes (engine 'loader-single-template'), a 3 x 125 = 375 candidate search (engine 'loader-many-candidates'), (max, step) ranges whose ratio is whole only in decimals.")
 TOLERANCES = {"rotation": "1e-6 rad (must be exactly a candidate)", "shift": "0.15 px", "score optimality": "2e-3 relative",
               "grid": "1e-6 rad"}
 ASSUMPTIONS = ["rotation sets contain the identity (documented precondition) and have members >= 25 deg apart",
